@@ -10,6 +10,8 @@ import XcpProofs.Clash
 import XcpProofs.ClashExample
 import XcpProofs.MultiClash
 import XcpProofs.DerefOverlay
+import XcpProofs.EndToEndClash
+import XcpProofs.ClashLinks
 /-! # C02 — exit 0 implies the destination tree mirrors the selected source tree
 
 Model slice: `targetBase` (cp's mapping rule), `walkEntry` (one operation per selected entry, by kind),
@@ -393,5 +395,76 @@ example : ∃ fs', execOps DerefOverlayExample.exFs DerefOverlayExample.exCfg
     FsEq fs' { DerefOverlayExample.exFs with root :=
       (DerefOverlayExample.exFs.root.setAt [DerefExample.nT, DerefExample.nS] DerefOverlayExample.exDest) } :=
   DerefOverlayExample.example_run
+
+/-- THE WHOLE PROGRAM MODEL, C02 AS STATED: for `L1run` — main's validation followed by the walk of every source, the very
+function the correspondence runs compare with the real program — and an invocation `xcp -r s1 … sn DEST` / `-t DEST s1 … sn`
+whose existing targets are made of directories and regular files: exit status ok IMPLIES that every target is overlaid with its
+source tree and nothing else has changed.  No compatibility is assumed: validation may reject, a source may clash half-way —
+then the exit is not ok (`a_clash_anywhere_makes_the_whole_invocation_fail`) -/
+theorem whole_invocation_exit_zero_implies_the_overlay (fs : Fs) (o : Opts) (texts : GiTexts) (dest : RPath) (items : List CopySrc) (fuel : Nat)
+    (hd : o.cfg.dereference = false) (hn : o.cfg.noClobber = false) (hg : o.cfg.gitignore = false)
+    (hnt : o.cfg.noTargetDir = false) (hrec : o.cfg.recursive = true) (hglob : o.glob = false)
+    (hpaths : (o.targetDir = none ∧ o.paths = items.map (·.path) ++ [dest]) ∨
+      (o.targetDir = some dest ∧ o.paths = items.map (·.path)))
+    (hne : items ≠ [])
+    (hwf : FsEq fs fs)
+    (hdest : PlainTarget fs dest) (hdd : ∃ es, fs.root.getAt dest.names = some (.dir es))
+    (hfuel : fuel < walkFuel)
+    (hsrc : ∀ e ∈ items, PlainTarget fs e.path ∧ e.path.fileName = some e.base ∧
+      fs.root.getAt e.path.names = some e.node ∧ e.node.Copyable fuel ∧ e.path.names.length + walkFuel < 256)
+    (hnd : (items.map (·.base)).Nodup)
+    (hun : ∀ e ∈ items, ∀ e' ∈ items,
+      ¬ e.path.names <+: dest.names ++ [e'.base] ∧ ¬ dest.names ++ [e'.base] <+: e.path.names)
+    (hplain : ∀ e ∈ items, ∀ d, fs.root.getAt (dest.names ++ [e.base]) = some d → d.plainTree = true)
+    (hlen : dest.names.length + 1 + walkFuel < 256)
+    (fs' : Fs) (hrun : L1run fs o texts = ⟨.ok, fs'⟩) :
+    FsEq fs' { fs with root := overlayAll fs.root dest.names items fs.root } :=
+  whole_invocation_exit_zero_implies_overlaid fs o texts dest items fuel hd hn hg hnt hrec hglob hpaths hne hwf hdest hdd hfuel hsrc hnd hun hplain hlen fs' hrun
+
+theorem a_clash_anywhere_makes_the_whole_invocation_fail (fs : Fs) (o : Opts) (texts : GiTexts) (dest : RPath) (items : List CopySrc) (fuel : Nat)
+    (hd : o.cfg.dereference = false) (hn : o.cfg.noClobber = false) (hg : o.cfg.gitignore = false)
+    (hnt : o.cfg.noTargetDir = false) (hrec : o.cfg.recursive = true) (hglob : o.glob = false)
+    (hpaths : (o.targetDir = none ∧ o.paths = items.map (·.path) ++ [dest]) ∨
+      (o.targetDir = some dest ∧ o.paths = items.map (·.path)))
+    (hne : items ≠ [])
+    (hwf : FsEq fs fs)
+    (hdest : PlainTarget fs dest) (hdd : ∃ es, fs.root.getAt dest.names = some (.dir es))
+    (hfuel : fuel < walkFuel)
+    (hsrc : ∀ e ∈ items, PlainTarget fs e.path ∧ e.path.fileName = some e.base ∧
+      fs.root.getAt e.path.names = some e.node ∧ e.node.Copyable fuel ∧ e.path.names.length + walkFuel < 256)
+    (hnd : (items.map (·.base)).Nodup)
+    (hun : ∀ e ∈ items, ∀ e' ∈ items,
+      ¬ e.path.names <+: dest.names ++ [e'.base] ∧ ¬ dest.names ++ [e'.base] <+: e.path.names)
+    (hplain : ∀ e ∈ items, ∀ d, fs.root.getAt (dest.names ++ [e.base]) = some d → d.plainTree = true)
+    (hlen : dest.names.length + 1 + walkFuel < 256)
+    (hclash : ∃ e ∈ items, ¬ Compatible (fs.root.getAt (dest.names ++ [e.base])) e.node) :
+    (L1run fs o texts).exit = .err :=
+  whole_invocation_with_a_clash_exits_nonzero fs o texts dest items fuel hd hn hg hnt hrec hglob hpaths hne hwf hdest hdd hfuel hsrc hnd hun hplain hlen hclash
+
+/-- … and the destination need be plain only WHERE THE SOURCE MAPS ONTO IT (`Node.plainWhereMapped`, decidable, same
+recursion as `Compatible`): under names the source does not list it may hold anything — symbolic links, special files, whole
+subtrees with links, as a destination populated by an earlier copy does.  Exit ok still implies the overlay; a clash still
+fails.  This is as far as it goes: a link AT a mapped position is written through (F13), and the run exits 0 -/
+theorem exit_zero_implies_the_overlay_links_elsewhere_allowed (fs : Fs) (c : Cfg) (hd : c.dereference = false) (hn : c.noClobber = false)
+    (src tb : RPath) (srcNode : Node) (fuel : Nat)
+    (hwf : FsEq fs fs) (hroot : fs.root.isDir = true)
+    (hsrc : PlainTarget fs src) (hsn : fs.root.getAt src.names = some srcNode)
+    (hcop : srcNode.Copyable fuel)
+    (htb : PlainTarget fs tb) (hne : tb.names ≠ [])
+    (hplain : ∀ d, fs.root.getAt tb.names = some d → d.plainWhereMapped srcNode = true)
+    (hpar : ∃ es, fs.root.getAt tb.names.dropLast = some (.dir es))
+    (hun1 : ¬ src.names <+: tb.names) (hun2 : ¬ tb.names <+: src.names)
+    (hlen : src.names.length + fuel < 200 ∧ tb.names.length + fuel < 200)
+    (fs' : Fs) (hok : execOps fs c (walkEntry fs c none src tb (fuel + 1) [] []) = ⟨.ok, fs'⟩) :
+    FsEq fs' { fs with root := fs.root.setAt tb.names (Node.overlay (fs.root.getAt tb.names) srcNode) } :=
+  ok_implies_overlaid_mapped fs c hd hn src tb srcNode fuel hwf hroot hsrc hsn hcop htb hne hplain hpar hun1 hun2 hlen fs' hok
+
+/-- `plainWhereMapped` holds of a destination with a link and a FIFO under names the source does not list, which is not a
+`plainTree`; a link at a mapped position is rejected -/
+example : (Node.dir [([97], .file 1), ([108], .link ⟨false, [.name [120]], false⟩), ([100], .dir [([112], .special .fifo 0)])]).plainWhereMapped
+      (.dir [([97], .file 2), ([100], .dir [([98], .file 3)])]) = true ∧
+    (Node.dir [([97], .file 1), ([108], .link ⟨false, [.name [120]], false⟩)]).plainTree = false ∧
+    (Node.dir [([97], .link ⟨false, [.name [120]], false⟩)]).plainWhereMapped (.dir [([97], .file 2)]) = false :=
+  ⟨rfl, rfl, rfl⟩
 
 end Xcp.C02
